@@ -33,20 +33,22 @@ class Source(PartHandler):
 
     def __init__(self, name = None, part_generator = None, cycle_time = 0.0,
                  starting_parts = float('inf')):
-        super().__init__(name, None, cycle_time, value = 0)
-
-        if part_generator == None:
-            self._part_generator = PartGenerator(name_prefix = f'Part_{self.id}')
-        else:
+        if part_generator != None:
             assert_is_instance(part_generator, PartGenerator)
-            self._part_generator = part_generator
+        self._part_generator = part_generator
 
         self._max_produced_parts = starting_parts
         self._cost_of_produced_parts = 0
         self._produced_parts = 0
+        # Register with the System last: it initializes the Asset
+        # right away if the simulation is already in progress.
+        super().__init__(name, None, cycle_time, value = 0)
 
     def initialize(self, env):
         super().initialize(env)
+        if self._part_generator == None:
+            # Default generator, its name prefix needs the Source's ID.
+            self._part_generator = PartGenerator(name_prefix = f'Part_{self.id}')
         self._schedule_finish_cycle()
 
     def set_upstream(self, new_upstream_list):
